@@ -634,8 +634,154 @@ fn directed() -> Vec<Case> {
     v
 }
 
+
+// ---------------------------------------------------------------- a refused `Expect: 100-continue`
+
+/// A request announcing a body with `Expect: 100-continue` is refused by the expect service (417)
+/// before any of its body was read.  The body was neither consumed nor drained, so the declared
+/// length still stands: whatever follows on the wire is, byte for byte, that body.  The connection
+/// may only go on to another request at the body's exact end, and otherwise nothing further may be
+/// written or dispatched.
+#[derive(Clone, Debug)]
+struct RefusedCase {
+    cfg: ConnCfg,
+    declared: usize,
+    chunked: bool,
+    /// 0: nothing of the body is sent, a request-shaped text shorter than the body follows;
+    /// 1: the whole body is sent (request-shaped), then a real request;
+    /// 2: nothing follows at all
+    follow: u8,
+    /// head and what follows arrive in one segment
+    one_segment: bool,
+}
+
+impl RefusedCase {
+    fn to_json(&self) -> Value {
+        json!({"refused_expectation": {"cfg": self.cfg.to_json(), "declared": self.declared, "chunked": self.chunked, "follow": self.follow, "one_segment": self.one_segment}})
+    }
+    fn from_json(v: &Value) -> Self {
+        RefusedCase {
+            cfg: ConnCfg::from_json(&v["cfg"]),
+            declared: v["declared"].as_u64().unwrap_or(100) as usize,
+            chunked: v["chunked"].as_bool().unwrap_or(false),
+            follow: v["follow"].as_u64().unwrap_or(0) as u8,
+            one_segment: v["one_segment"].as_bool().unwrap_or(false),
+        }
+    }
+}
+
+fn eval_refused(c: &RefusedCase, rep: &mut Reporter) {
+    rep.eval();
+    let mut cfg = c.cfg.clone();
+    cfg.expect_refuse = true;
+    let mut sc = Scenario::new(cfg, vec![], 1);
+    sc.default_prog = Some(Prog::default());
+    let head = if c.chunked {
+        "POST /refuse HTTP/1.1\r\nHost: t\r\nExpect: 100-continue\r\nTransfer-Encoding: chunked\r\n\r\n".to_string()
+    } else {
+        format!("POST /refuse HTTP/1.1\r\nHost: t\r\nExpect: 100-continue\r\nContent-Length: {}\r\n\r\n", c.declared)
+    };
+    let lookalike = b"GET /inside-refused-body HTTP/1.1\r\nHost: t\r\n\r\n".to_vec();
+    let real = b"GET /after-refused-body HTTP/1.1\r\nHost: t\r\n\r\n".to_vec();
+    let follow: Vec<u8> = match c.follow {
+        0 => lookalike.clone(),
+        1 => {
+            // the whole body, request-shaped, padded to the declared length; then a real request
+            let mut b = lookalike.clone();
+            while b.len() < c.declared {
+                b.push(b'x');
+            }
+            b.truncate(c.declared);
+            let mut w = if c.chunked { [format!("{:x}\r\n", b.len()).into_bytes(), b, b"\r\n0\r\n\r\n".to_vec()].concat() } else { b };
+            w.extend_from_slice(&real);
+            w
+        }
+        _ => vec![],
+    };
+    if c.one_segment {
+        sc.acts.push(Act::Push([head.clone().into_bytes(), follow].concat()));
+    } else {
+        sc.acts.push(Act::Push(head.clone().into_bytes()));
+        if !follow.is_empty() {
+            sc.acts.push(Act::Push(follow));
+        }
+    }
+    let oc = match guard(|| run_scenario(&sc)) {
+        Ok(o) => o,
+        Err(p) => {
+            rep.violation("panic", &panic_site(&p), &format!("panic: {p}"), c.to_json());
+            return;
+        }
+    };
+    if std::env::var("AVMON_DEBUG").is_ok() {
+        crate::world::run::debug_dump(&sc, &oc);
+    }
+    let sig = format!("refused-expectation {} follow={} one-segment={} half_closed={} disc={}", if c.chunked { "chunked" } else { "cl" }, c.follow, c.one_segment, c.cfg.half_closed, c.cfg.disc_timeout_ms);
+    rep.sig(&sig);
+    rep.count("refused_expectation_cases", 1);
+    let rp = h1_resp::parse_responses(&oc.out, &|_| Some("GET".to_string()), true);
+    let finals: Vec<&RefResp> = rp.resps.iter().filter(|r| !r.is_interim()).collect();
+    rep.count(&format!("refused_expectation_first_status:{}", finals.first().map(|r| r.status).unwrap_or(0)), 1);
+    // the request-shaped text inside the refused request's body is never a request
+    if let Some(r) = oc.reqs.iter().find(|r| r.target.contains("inside-refused-body")) {
+        rep.violation("dispatch-inside-unread-body", &sig, &format!("handler ran for {} which lies inside the body of the refused request", r.target), c.to_json());
+        return;
+    }
+    let after_ok = c.follow == 1;
+    // beyond the answer to the refused request, only the request at the body's exact end may be answered
+    if finals.len() > 1 || rp.malformed_at.is_some() {
+        let legit = after_ok && finals.len() == 2 && rp.malformed_at.is_none() && oc.reqs.len() == 1 && oc.reqs[0].target.contains("after-refused-body") && finals[1].req_idx_header() == Some(0);
+        // A chunked body that the server set out to drain and that turns out not to be chunk
+        // framing at all is a malformed request in its own right: one 400 for it, then silence, is
+        // the statement's "error response to a malformed request".  Counted.
+        let malformed_drain = c.chunked && c.follow == 0 && finals.len() == 2 && finals[1].status == 400 && rp.malformed_at.is_none() && oc.reqs.is_empty();
+        if malformed_drain {
+            rep.count("refused_expectation_then_400_for_malformed_chunk_framing(tolerated)", 1);
+        } else if !legit {
+            rep.violation(
+                "bytes-after-unread-body-response",
+                &sig,
+                &format!("the refused request's body ({}) was {}; output after its answer: {}", if c.chunked { "chunked".to_string() } else { format!("{} bytes declared", c.declared) }, if after_ok { "sent in full" } else { "not sent" }, esc_short(&oc.out[finals[0].end.min(oc.out.len())..], 200)),
+                c.to_json(),
+            );
+            return;
+        } else {
+            rep.count("refused_expectation_then_next_request_served", 1);
+        }
+    } else {
+        rep.count("refused_expectation_then_silence", 1);
+    }
+    if !after_ok && !oc.reqs.is_empty() {
+        rep.violation("dispatch-inside-unread-body", &sig, &format!("handler ran for {} although nothing beyond the refused request's unread body was sent", oc.reqs[0].target), c.to_json());
+    }
+}
+
+fn refused_cases(ctx: &Ctx, rep: &mut Reporter) {
+    let mut k = 0u64;
+    for cfg in [ConnCfg::persistent(), ConnCfg { disc_timeout_ms: 1000, ..ConnCfg::persistent() }, ConnCfg { half_closed: false, ..ConnCfg::persistent() }] {
+        for chunked in [false, true] {
+            for declared in [100usize, 6000, 200_000] {
+                for follow in 0..3u8 {
+                    for one_segment in [false, true] {
+                        k += 1;
+                        if ctx.mine(k) {
+                            eval_refused(&RefusedCase { cfg: cfg.clone(), declared, chunked, follow, one_segment }, rep);
+                        }
+                    }
+                }
+            }
+        }
+    }
+}
+
 pub fn run(ctx: &Ctx, rep: &mut Reporter) {
     if let Some(r) = &ctx.replay {
+        if !r["refused_expectation"].is_null() {
+            eval_refused(&RefusedCase::from_json(&r["refused_expectation"]), rep);
+            rep.sig("replay-a");
+            rep.sig("replay-b");
+            return;
+        }
         eval_case(&Case::from_json(r), rep);
         rep.sig("replay-a");
         rep.sig("replay-b");
@@ -647,6 +793,9 @@ pub fn run(ctx: &Ctx, rep: &mut Reporter) {
         }
     }
     rep.max("directed_cases", directed().len() as u64);
+    if !ctx.is_miri() {
+        refused_cases(ctx, rep);
+    }
     let n = ctx.share(48_000, 2_400_000);
     for k in 0..n {
         if ctx.out_of_time() {
